@@ -175,3 +175,55 @@ func ZZ_C12_ersIsolation() {
 	nondet.Reach("C12.ers.adopts-legacy", migration && c.Count("delete", "Pod") >= 1)
 	nondet.Reach("C12.ers.foreign-present", len(pods) >= 3)
 }
+
+// ZZ_C12_activeDuringCanaryLeavesForeignPodsAlone: the pods an ExtendedDaemonSet handles are "only pods
+// of its namespace that carry its name label" also while a canary is in progress and whichever of its
+// replica sets is being synced (active, canary or leftover).  Two nodes; the canary runs on node1; the
+// same namespace holds a pod of another ExtendedDaemonSet and a bare pod without any ExtendedDaemonSet
+// label, each on node0 or node1.  The sync writes nothing on them and counts none of them.
+func ZZ_C12_activeDuringCanaryLeavesForeignPodsAlone() {
+	c, ds, rsNew, rsOld := zzStore(2)
+	ds.Spec.Strategy.Canary = &datadoghqv1alpha1.ExtendedDaemonSetSpecStrategyCanary{}
+	datadoghqv1alpha1.DefaultExtendedDaemonSetSpec(&ds.Spec, datadoghqv1alpha1.ExtendedDaemonSetSpecStrategyCanaryValidationModeAuto)
+	// foo-old is active, foo-new is the canary on node1
+	ds.Status.ActiveReplicaSet = rsOld.Name
+	ds.Status.Canary = &datadoghqv1alpha1.ExtendedDaemonSetStatusCanary{ReplicaSet: rsNew.Name, Nodes: []string{zzNodeName(1)}}
+	ds.Status.State = datadoghqv1alpha1.ExtendedDaemonSetStatusStateCanary
+	c.Pods = append(c.Pods,
+		zzPod("own-active", zzNodeName(0), zzOldRS, zzHashOld, 0, corev1.PodRunning, true, nondet.Base().Add(-3600*1e9)),
+		zzPod("own-canary", zzNodeName(1), zzRSName, zzHashNew, 0, corev1.PodRunning, true, nondet.Base().Add(-600*1e9)))
+	foreignNode := zzNodeName(0)
+	if nondet.Bool("foreignPodsOnTheCanaryNode") {
+		foreignNode = zzNodeName(1)
+	}
+	other := zzPod("bar-pod", foreignNode, "bar-z", "hash-z", 0, corev1.PodRunning, true, nondet.Base().Add(-3600*1e9))
+	other.Labels[datadoghqv1alpha1.ExtendedDaemonSetNameLabelKey] = "bar"
+	bare := &corev1.Pod{ObjectMeta: metav1.ObjectMeta{Name: "web-0", Namespace: zzNS, Labels: map[string]string{"app": "web"}},
+		Spec: corev1.PodSpec{NodeName: foreignNode}, Status: corev1.PodStatus{Phase: corev1.PodRunning, Conditions: []corev1.PodCondition{{Type: corev1.PodReady, Status: corev1.ConditionTrue}}}}
+	c.Pods = append(c.Pods, other, bare)
+	synced := rsOld.Name
+	switch nondet.String("syncedReplicaSet", "active", "canary") {
+	case "canary":
+		synced = rsNew.Name
+	}
+	_, err := zzReconcile(zzReconciler(c, nondet.Bool("nodeAffinitySupported")), zzNS, synced)
+	nondet.Assert("C12.during-canary.noerror", err == nil)
+	for _, e := range c.Writes() {
+		if e.Kind == "Pod" {
+			nondet.Assert("C12.during-canary.foreign-pod-untouched", e.Name != "bar-pod" && e.Name != "web-0")
+		}
+	}
+	alive := 0
+	for _, p := range c.Pods {
+		if p.Name == "bar-pod" || p.Name == "web-0" {
+			alive++
+		}
+	}
+	nondet.Assert("C12.during-canary.foreign-pods-alive", alive == 2)
+	for _, s := range c.ERS {
+		if s.Name == synced {
+			nondet.Assert("C12.during-canary.status-counts-own-pods-only", s.Status.Current <= 1 && s.Status.Ready <= 1)
+		}
+	}
+	nondet.Reach("C12.during-canary.active-synced", synced == rsOld.Name)
+}
